@@ -3,10 +3,13 @@ package props
 import (
 	"bytes"
 	"encoding/json"
+	"flag"
 	"fmt"
+	"io"
 	"math"
 	"os"
 	"path/filepath"
+	"strconv"
 	"strings"
 
 	wt "github.com/hnakamur/whispertool"
@@ -29,6 +32,7 @@ type c20Case struct {
 	XFF     float32 `json:"xff"`
 	Max     int     `json:"max"`
 	Fill    bool    `json:"fill"`
+	Flags   bool    `json:"via_flags,omitempty"` // the command is built by Parse from command-line arguments
 	Now     int64   `json:"now"`
 	Exists  bool    `json:"destination_exists"`
 	Answers []int   `json:"rand_answers"` // per Intn call: 0 = n/2, 1 = 0, 2 = n-1
@@ -98,10 +102,22 @@ func c20Eval(c *fw.Ctx, k c20Case) (sig, desc string, draws int, nontrivial bool
 	rs := &randScript{answers: k.Answers}
 	rs.install()
 	cmd := &wcmd.GenerateCommand{Dest: p, Perm: 0644, AggregationMethod: wt.AggregationMethod(k.Method), XFilesFactor: k.XFF, ArchiveInfoList: archList(l.Archs), RandMax: k.Max, Fill: k.Fill, TextOut: ""}
+	if k.Flags {
+		// the same request spelled as command-line arguments: the options must mean what the fields mean
+		cmd = &wcmd.GenerateCommand{}
+		fs := flag.NewFlagSet("generate", flag.ContinueOnError)
+		fs.SetOutput(io.Discard)
+		args := []string{"-dest", p, "-agg-method", methodName(k.Method), "-x-files-factor", strconv.FormatFloat(float64(k.XFF), 'g', -1, 32),
+			"-retentions", wsp.LayoutString(l.Archs), "-max", strconv.Itoa(k.Max), "-fill=" + strconv.FormatBool(k.Fill), "-text-out", ""}
+		if perr := cmd.Parse(fs, args); perr != nil {
+			uninstallRand()
+			return "C20/flags/rejected", fmt.Sprintf("generate %v: %v", args, perr), 0, false
+		}
+	}
 	err, pn := RunCommand(k.Now, cmd)
 	uninstallRand()
 	draws = len(rs.ns)
-	ctx := fmt.Sprintf("generate layout %s method=%s xff=%v max=%d fill=%v now=%d exists=%v answers=%v", k.Layout, methodName(k.Method), k.XFF, k.Max, k.Fill, k.Now, k.Exists, k.Answers)
+	ctx := fmt.Sprintf("generate layout %s method=%s xff=%v max=%d fill=%v now=%d exists=%v answers=%v via-flags=%v", k.Layout, methodName(k.Method), k.XFF, k.Max, k.Fill, k.Now, k.Exists, k.Answers, k.Flags)
 	cls := classify(err, pn)
 	if cls == "panic" {
 		return "C20/panic", ctx + ": " + firstLine(pn), draws, false
@@ -297,6 +313,9 @@ func runC20(c *fw.Ctx) {
 					ex := base
 					ex.Exists = true
 					one(ex)
+					fl := base
+					fl.Flags = true
+					one(fl)
 					d := one(base)
 					c.Outcome(fmt.Sprintf("draws=%d", d))
 					if !fill || mx == 0 {
